@@ -72,6 +72,8 @@ func main() {
 		"GROUP BY: SimpleGroupBy / CustomTriggerGroupBy built through the planner path by harness/cmd/c16/gb (all trigger sets, COUNT/SUM, watermarks) and judged by validity of the output + c16_spec; " +
 		"JOIN: StreamJoin / OuterJoin over two gated plain scripts (valid changelogs, event times, watermarks) consumed in a prescribed order (random merges and " +
 		"one-input-ends-before-the-other-starts), judged by validity of the output + c19_spec_final. " +
+		"Round 2: pipelines of 2-3 nodes (fixed: LIMIT above/below ORDER BY, Map, Filter, Distinct; random), every node object run twice over different inputs, " +
+		"nodes below an EventTimeBuffer (records kept until a watermark), and a check that no produced record changes afterwards. " +
 		"Deterministic families in every run: ORDER BY + LIMIT 1..3 with a retraction among the first n rows / equal duplicates on the boundary (OST and printer), " +
 		"Distinct with multiplicity > 1 then retractions, a group emitted by a counting trigger and then emptied, a join input that ends while its records are still buffered"
 	n := f.Cases(900, 9000)
@@ -117,6 +119,9 @@ func main() {
 		if dups > 0 {
 			cf.Count("with_duplicate")
 		}
+		if obs.Aliased {
+			cf.Violation(idx, ops.KindNames[kind]+" changed the values of a record after producing it", "")
+		}
 		if valid && obs.Panicked != nil {
 			cf.Violation(idx, fmt.Sprintf("%s panicked on a valid changelog: %v", ops.KindNames[kind], obs.Panicked), "")
 		}
@@ -135,6 +140,8 @@ func main() {
 			cf.Violation(idx, fmt.Sprintf("%s panicked on a valid changelog: %v", ops.KindNames[fc.Spec.Kind], obs.Panicked), "")
 		}
 	}
+	// ---- round 2: pipelines of nodes, every node object run twice, a deferring consumer (EventTimeBuffer) on top ----
+	ops.Round2Families(cf, "XNode", rng.Fork(), f.Cases(150, 1500), true)
 	// ---- GROUP BY (nodes and generator of harness/cmd/c16/gb; the case term is a gb_case) ----
 	gb.Init()
 	// deterministic: a group is emitted by a counting trigger, then all its rows are retracted (it stays empty, it
@@ -157,16 +164,22 @@ func main() {
 		}
 		for _, ts := range trigSets {
 			for _, sc := range scripts {
-				idx := gb.RunCase(cf, gb.Config{NK: 1, Aggs: []gb.Agg{gb.Count, gb.Sum}, KTI: -1, Trigs: ts}, sc, "fixed_group_emptied_after_trigger")
-				cf.Items[idx] = "XGroup " + cf.Items[idx]
+				from := len(cf.Items)
+				gb.RunCase(cf, gb.Config{NK: 1, Aggs: []gb.Agg{gb.Count, gb.Sum}, KTI: -1, Trigs: ts}, "fixed_group_emptied_after_trigger", sc)
+				for k := from; k < len(cf.Items); k++ {
+					cf.Items[k] = "XGroup " + cf.Items[k]
+				}
 				cf.Count("fixed_group_emptied_after_trigger")
 			}
 		}
 	}
 	for i := 0; i < nGroup; i++ {
 		r := rng.Fork()
-		idx := gb.RandomCase(cf, r, i, false)
-		cf.Items[idx] = "XGroup " + cf.Items[idx]
+		from := len(cf.Items)
+		gb.RandomCase(cf, r, i, false) // may add several cases (the same node object run more than once)
+		for k := from; k < len(cf.Items); k++ {
+			cf.Items[k] = "XGroup " + cf.Items[k]
+		}
 	}
 	// ---- StreamJoin / OuterJoin ----
 	ops.InitJoins()
